@@ -34,7 +34,10 @@ def scene_case(spec):
     out = {"evaluations": 1, "mismatches": [], "prop_failures": [], "dist": {}, "nontrivial": []}
     nb = int(rng.integers(1, 3))
     cfg = S.draw_config(rng, nb=nb, multi_dir=(spec["idx"] % 2 == 1), random_tables=(spec["idx"] % 4 == 3),
-                        max_patches=spec["max_patches"], offset=(spec["idx"] % 3 == 0))
+                        max_patches=spec["max_patches"], offset=(spec["idx"] % 3 == 0),
+                        partition=(spec["idx"] % 3 == 2))
+    if cfg.get("partition"):
+        out["dist"]["interior_partition"] = 1
     K = int(rng.integers(1, 3))
     radi = S.build(cfg)
     src = S.draw_inside(rng, cfg["dims"], off=cfg["offset"])
